@@ -3108,12 +3108,10 @@ func (p *Posix) DeleteObject(ctx context.Context, input *s3.DeleteObjectInput) (
 				}
 			}
 
-			// Mark the object as a delete marker
-			err = p.meta.StoreAttribute(nil, bucket, object, deleteMarkerKey, []byte{})
-			if err != nil {
-				return nil, fmt.Errorf("set delete marker: %w", err)
-			}
-
+			// The version id is changed before the object is marked as a
+			// delete marker: if the gateway dies in between, a marker still
+			// carrying the id of the version saved above would shadow that
+			// version (it could no longer be read by its id)
 			versionId := nullVersionId
 			if p.isBucketVersioningEnabled(vStatus) {
 				// Generate & set a unique versionId for the delete marker
@@ -3127,6 +3125,12 @@ func (p *Posix) DeleteObject(ctx context.Context, input *s3.DeleteObjectInput) (
 				if err != nil && !errors.Is(err, meta.ErrNoSuchKey) {
 					return nil, fmt.Errorf("delete versionId: %w", err)
 				}
+			}
+
+			// Mark the object as a delete marker
+			err = p.meta.StoreAttribute(nil, bucket, object, deleteMarkerKey, []byte{})
+			if err != nil {
+				return nil, fmt.Errorf("set delete marker: %w", err)
 			}
 
 			return &s3.DeleteObjectOutput{
